@@ -25,6 +25,13 @@ def path_of(t):
             t = t.args[0]
         elif op in ("deref", "refv", "conv"):
             t = t.args[0]
+        elif op == "ref" and isinstance(t.args[0], tuple) and len(t.args[0]) == 2 and t.args[0][0] == "param" and \
+                all(isinstance(e, tuple) and e and e[0] == "f" for e in t.args[1]):
+            # a pointer into a root parameter's pointee: &param.f.g
+            for e in reversed(t.args[1]):
+                parts.append(str(e[1]))
+            parts.append(str(t.args[0][1]))
+            break
         elif op == "peeked":
             # the element an un-advanced iterator stands on: the first element
             parts.append("first")
@@ -322,12 +329,63 @@ def parts_of(t, _stack=()):
             continue
         if cur.op == "vec_new":
             break
+        if cur.op == "updrng" and cur.args[0].op == "from_elem" and all(is_t(x) and x.op == "int" for x in (cur.args[0].args[0], cur.args[0].args[1], cur.args[1], cur.args[2])) \
+                and cur.args[0].args[0].args[0] == 0:
+            # a zeroed fixed-size buffer with `val` copied into [lo, hi): zeros . val . zeros
+            n, lo, hi = cur.args[0].args[1].args[0], cur.args[1].args[0], cur.args[2].args[0]
+            zero = cur.args[0].args[0]
+            seqp = []
+            if lo > 0:
+                seqp.append(("part", mk("from_elem", zero, mk("int", lo, "usize"))))
+            seqp.append(("part", cur.args[3]))
+            if n - hi > 0:
+                seqp.append(("part", mk("from_elem", zero, mk("int", n - hi, "usize"))))
+            parts.extend(reversed(seqp))
+            break
+        if cur.op == "collected" and cur.args[0].op == "flat_mapped":
+            # outer.flat_map(|e| seq(e)).collect(): the concatenation of seq(e) over the elements of outer
+            outer, body = cur.args[0].args
+
+            def seq(x):
+                if x.op == "chained":
+                    return seq(x.args[0]) + seq(x.args[1])
+                while x.op in ("cloned_iter", "refv") or (x.op == "adapted" and x.args[1] in LENGTH_PRESERVING_ADAPTORS and x.args[1] != "rev"):
+                    x = x.args[0]
+                if x.op == "iter":
+                    x = x.args[0]
+                return [("part", x)]
+            inner = seq(body)
+            ones = {}
+            for q in inner:
+                for o in find_all(q[1], lambda z: z.op == "oneof"):
+                    ones[o.id] = o
+            src = outer.args[0] if outer.op == "iter" else None
+            lit = src is not None and src.op == "agg" and src.args[0] == "array"
+            if lit and len(ones) == 1 and len(list(ones.values())[0].args) == len(src.args) - 1:
+                o = list(ones.values())[0]
+                exp = []
+                for a in o.args:
+                    exp += [(q[0], substitute(q[1], o, a)) for q in inner]
+                parts.extend(reversed(exp))
+            elif lit and len(src.args) == 2 and not ones:
+                parts.extend(reversed(inner))
+            else:
+                parts.append(("repeat", inner))
+            break
         if cur.op == "phi":
             key = cur.args[0]
             if key in _stack:
                 parts.append(("loopback", key))
                 break
             inc = PHI.get(key) or {}
+            # an array overwritten element by element by a loop over all its positions: a[i] = X(i) for i in 0..n
+            upd = [v for v in inc.values() if v.op == "updidx" and v.args[0] is cur and is_t(v.args[1]) and v.args[1].op == "range_elem"]
+            init = [v for v in inc.values() if not (v.op == "updidx" and v.args[0] is cur) and v is not cur]
+            if len(upd) == 1 and len({v.id for v in init}) == 1 and init[0].op in ("from_elem", "agg"):
+                pos = upd[0].args[1]
+                full = is_t(pos.args[0]) and pos.args[0].op == "int" and pos.args[0].args[0] == 0
+                if full:
+                    return [("repeat", [("byte", upd[0].args[2])])] + parts[::-1]
             bases, loops = [], []
             for pred, v in inc.items():
                 pr = parts_of(v, _stack + (key,))
@@ -601,6 +659,8 @@ def fold_view(t, eng=None):
 
 def traversal_of(eng, elem, ordered=False):
     """for elem(src, site): the collection the loop / adaptor chain producing it traverses completely (see whole_of)"""
+    while is_t(elem) and elem.op in ("deref", "refv") and len(elem.args) == 1:
+        elem = elem.args[0]
     if not (is_t(elem) and elem.op == "elem" and len(elem.args) >= 2):
         return None
     site = elem.args[1]
@@ -610,7 +670,16 @@ def traversal_of(eng, elem, ordered=False):
     its = list({x.id: x for x in its}.values())
     if len(its) != 1:
         return None
-    return whole_of(its[0], eng, ordered)
+    it = its[0]
+    n = 0
+    while it.op == "chained" and n < 8:
+        # the element belongs to one half of a.chain(b): that half is traversed completely on its own
+        halves = [h for h in it.args[:2] if contains(h, lambda z: z.op == "iter" and site in z.args[2:])]
+        if len(halves) != 1:
+            return None
+        it = halves[0]
+        n += 1
+    return whole_of(it, eng, ordered)
 
 
 def substitute(t, old, new, _memo=None):
@@ -647,6 +716,33 @@ def unroll_literal_loops(parts):
                 for a in o.args:
                     for q in p[1]:
                         out.append((q[0], substitute(q[1], o, a)) if len(q) > 1 and is_t(q[1]) else q)
+                continue
+        out.append(p)
+    return out
+
+
+def split_chain_loops(parts):
+    """a loop over `a.chain(b)` runs its body for every element of a, then for every element of b: a ('repeat', body) whose
+    body mentions one chain_elem(ea, eb, chained(a, b)) becomes the body over a followed by the body over b (a single
+    copy when the half is a one-element sequence such as iter::once(x))"""
+    out = []
+    for p in parts:
+        if p[0] == "repeat":
+            ces = {}
+            for q in p[1]:
+                if len(q) > 1 and is_t(q[1]):
+                    for c in find_all(q[1], lambda z: z.op == "chain_elem"):
+                        ces[c.id] = c
+            if len(ces) == 1:
+                c = list(ces.values())[0]
+                ea, eb, it = c.args
+                for e, half in ((ea, it.args[0]), (eb, it.args[1])):
+                    body = [(q[0], substitute(q[1], c, e)) if len(q) > 1 and is_t(q[1]) else q for q in p[1]]
+                    single = half.op == "iter" and half.args[0].op == "agg" and half.args[0].args[0] == "array" and len(half.args[0].args) == 2
+                    if single:
+                        out.extend(body)
+                    else:
+                        out.append(("repeat", body))
                 continue
         out.append(p)
     return out
